@@ -555,7 +555,7 @@ def run_soup(ctx):
             continue
         st0 = state.process_state()
         hist = []
-        for step in range(rng.randint(8, 30)):
+        for step in range(rng.randint(8, 30) if i % 12 else rng.randint(120, 200)):      # (now and then: a long life)
             case, g = rng.choice(made)
             pool = case['good'] + case['partial'] + case['wrong']
             inp = rng.choice(pool)
